@@ -85,7 +85,7 @@ func TestZZVerifValidate(t *testing.T) {
 		fmt.Printf("ZZVF-VALIDATED %%s pruned=%%v failed=%%d\n", kv[1], pruned, len(zzvf.Failed))
 	}
 }
-`, pkgName, mod, cases.String())
+`, pkgName, rootModule, cases.String())
 		testFile := filepath.Join(tmp, "zz_verif_validate_test.go")
 		os.WriteFile(testFile, []byte(testSrc), 0o644)
 		repl := map[string]string{}
